@@ -362,6 +362,26 @@ class CFG:
         rec(start, [], {})
         return out
 
+    def path_conditions(self, target, start=None, max_visits=1, limit=5000, start_label=None):
+        """Every path start->target as a list of (node, polarity) for the condition atoms and
+        loop heads it crosses (DNF of the reaching condition)."""
+        start = self.entry.id if start is None else start
+        out = []
+        for path in self.paths(start=start, targets=[target], max_visits=max_visits, limit=limit):
+            conj = []
+            for i, (nid, lab) in enumerate(path):
+                n = self.nodes[nid]
+                if i == 0 and start_label is not None and lab != start_label:
+                    conj = None
+                    break
+                if n.kind in ("cond", "loop") and lab in (True, False):
+                    if i == 0 and start_label is not None:
+                        continue
+                    conj.append((n, lab))
+            if conj is not None:
+                out.append(conj)
+        return out
+
     def control_conditions(self, nid):
         """Condition atoms (node id, label) such that the edge is taken on *every* path
         entry->nid (i.e. the guards that dominate the node with a fixed polarity)."""
@@ -378,11 +398,9 @@ class CFG:
         return out
 
 
-_cfg_cache = {}
-
-
 def cfg_of(fi):
-    key = id(fi.node)
-    if key not in _cfg_cache:
-        _cfg_cache[key] = CFG(fi.node)
-    return _cfg_cache[key]
+    c = getattr(fi, "_cfg", None)
+    if c is None:
+        c = CFG(fi.node)
+        fi._cfg = c
+    return c
